@@ -436,3 +436,72 @@ func vQueryInterleavings(steps int) {
 
 func VerifC07_QueryInterleavings3()  { vQueryInterleavings(3) }
 func VerifC07T_QueryInterleavings5() { vQueryInterleavings(5) }
+
+// ---- C07-H3: query creations that are rejected (or that register a new component type on
+// the way) never leave a lock bit behind: "unlocked exactly when the last open query has
+// finished or been closed". Whatever the call does — panic or return a query — afterwards
+// the lock state is the model's: not locked after a panic; locked until Close otherwise.
+type vLateRel struct{ RelationMarker }
+
+func VerifC07_RejectedQueryCreation() {
+	vMode = 0
+	W := vShapeFor(1)
+	dead := Entity{}
+	for j := 0; j < W.n; j++ {
+		if !W.e[j].alive {
+			dead = W.e[j].h
+		}
+	}
+	alive := W.e[0].h
+	outer := vPick("outer-query-open", 2) == 1
+	var oq Query1[vPos]
+	if outer {
+		oq = NewFilter1[vPos](W.w).Query()
+	}
+	var uq UnsafeQuery
+	var q2 Query2[vChild, vPos]
+	kind := vPick("creation", 8)
+	isUnsafe := kind < 4
+	p := vpanics(func() {
+		switch kind {
+		case 0: // index relation in the unsafe API
+			uq = NewUnsafeFilter(W.w, W.id[cR1]).Query(RelIdx(0, alive))
+		case 1: // relation given by a component type that is not registered yet
+			uq = NewUnsafeFilter(W.w, W.id[cR1]).Query(Rel[vLateRel](alive))
+		case 2: // valid
+			uq = NewUnsafeFilter(W.w, W.id[cR1]).Query(RelID(W.id[cR1], alive))
+		case 3: // second of two relations invalid
+			uq = NewUnsafeFilter(W.w, W.id[cR1]).Query(RelID(W.id[cR1], alive), RelIdx(1, alive))
+		case 4: // dead target per query
+			q2 = NewFilter2[vChild, vPos](W.w).Query(RelIdx(0, dead))
+		case 5: // relation index of a non-relation component
+			q2 = NewFilter2[vChild, vPos](W.w).Query(RelIdx(1, alive))
+		case 6: // relation index out of range
+			q2 = NewFilter2[vChild, vPos](W.w).Query(RelIdx(2, alive))
+		case 7: // valid
+			q2 = NewFilter2[vChild, vPos](W.w).Query(RelIdx(0, alive))
+		}
+	})
+	if p {
+		vnote("creation-rejected")
+		vcheck("rejected-creation-holds-no-lock", W.w.IsLocked() == outer)
+	} else {
+		vcheck("created-query-locks", W.w.IsLocked())
+		if isUnsafe {
+			uq.Close()
+		} else {
+			q2.Close()
+		}
+		vcheck("closed-query-unlocks", W.w.IsLocked() == outer)
+	}
+	if outer {
+		oq.Close()
+	}
+	vcheck("finally-unlocked", !W.w.IsLocked() && !W.w.Stats().Locked)
+	var bits uint64
+	bits = W.w.storage.locks.locks.bits
+	vcheck("no-lock-bit-left", bits == 0)
+	vLocked = false
+	W.checkAll("after")
+	vreach("end")
+}
